@@ -260,6 +260,23 @@ class SymBytes:
     def decode(self, *a, **k):
         return self.concrete().decode(*a, **k)
 
+    def rstrip(self, chars=None):
+        if chars is None:
+            chars = b" \t\n\r\x0b\x0c"
+        cs = list(bytes(chars))
+        n = len(self.e)
+        while n > 0:
+            last = _elt_to_int(self.e[n - 1])
+            hit = False
+            for ch in cs:
+                if last == ch:
+                    hit = True
+                    break
+            if not hit:
+                break
+            n -= 1
+        return self._new(self.e[:n])
+
     def startswith(self, p):
         pe = elements_of(p)
         return SymBytes(self.e[:len(pe)]) == SymBytes(pe)
